@@ -23,7 +23,7 @@ CLAIMED = {
   "DESIGN.md §3 C18"),
  "C14": ("model_checking",
   "TLA+ specs Mvs.tla (definition of the MVS result + order-independent traversal), ParWork.tla (work-set protocol, exhaustive + liveness), Semver.tla (precedence); TLC-generated graphs/versions replayed into the real code, par.Work hook traces validated by TLC",
-  "Mvs.tla defines Want (max version over all nodes reachable from the target) and checks that every visiting order of the traversal reaches it without tripping Graph.Require's panics; every graph TLC generates (exhaustive 3 modules x 2 versions, seeded RandomSubset samples up to 8x4 with cycles and older main-module requirements) is fed to the real mvs.BuildList/Req with shuffled lists and, with the main module's list as roots (several versions per path allowed), to the module loader's pruned graph reader modrequirements.Requirements.Graph, whose build list must be the pruned selection want1 of the spec; all with random latency and compared with Want (sufficient, minimal, nothing unreachable, main first, no module visited twice, Req minimal). ParWork.tla model-checks the work-set protocol (at most once, return only when drained, no lost wake-up, termination under fairness) and the hook events of real BuildList runs (10 runners) are validated against it with the scalar state (len(todo), waiting) compared at every event. Semver.tla gives a precedence rank to 1099 structured versions; every pair is compared with semver.Compare and module.Versions.Max, plus validity/canonical form.",
+  "Mvs.tla defines Want (max version over all nodes reachable from the target) and checks that every visiting order of the traversal reaches it without tripping Graph.Require's panics; every graph TLC generates (exhaustive 3 modules x 2 versions, seeded RandomSubset samples up to 6x3 with cycles and older main-module requirements) is fed to the real mvs.BuildList/Req with shuffled lists and, with the main module's list as roots (several versions per path allowed), to the module loader's pruned graph reader modrequirements.Requirements.Graph, whose build list must be the pruned selection want1 of the spec; all with random latency and compared with Want (sufficient, minimal, nothing unreachable, main first, no module visited twice, Req minimal). ParWork.tla model-checks the work-set protocol (at most once, return only when drained, no lost wake-up, termination under fairness) and the hook events of real BuildList runs (10 runners) are validated against it with the scalar state (len(todo), waiting) compared at every event. Semver.tla gives a precedence rank to 1099 structured versions; every pair is compared with semver.Compare and module.Versions.Max, plus validity/canonical form.",
   "trusted: TLC, the Want definition, rendering of versions/graphs; canaries (early return, double pick, wrong waiting count) must be rejected each run",
   "DESIGN.md §3 C14"),
  "C19": ("model_checking",
